@@ -598,7 +598,13 @@ class Num:
             return v  # signed overflow is undefined behaviour: assume it does not happen
         if entails(st, v - hi) and entails(st, Poly.const(lo) - v):
             return v
+        # the same mathematical value reduced modulo the same width is the same machine value: reuse its atom
+        memo = st.notes.setdefault("wrapmemo", {})
+        mk = (repr(v), t.get("w"), t.get("u"))
+        if mk in memo:
+            return Poly.atom(memo[mk])
         a = self.fresh(st, "wrap", t)
+        memo[mk] = a
         st.notes.setdefault("wrapped", []).append(repr(v))
         return Poly.atom(a)
 
@@ -1220,10 +1226,15 @@ class Num:
         """conservative effect of an unknown call: the objects its pointer arguments designate, every record type
         reachable from them through pointer fields, and all globals"""
         fn = self.fn
-        for a in e["a"]:
+        callee = self.prog.fns.get(e.get("callee")) if (self.prog and e.get("callee")) else None
+        for ai, a in enumerate(e["a"]):
             x = fn.d(a)
             if x is None:
                 continue
+            if callee is not None and ai < len(callee.params):
+                pt = callee.unit.types[callee.params[ai]["t"]]
+                if pt.get("ptr") and pt.get("s", "").startswith("const "):
+                    continue  # pointer to const: the callee does not modify the object
             xt = self.ty(x)
             inner = x
             while inner is not None and inner["k"] == "cast":
